@@ -41,9 +41,16 @@ FailedDecode(r) ==
 \cup (IF r.estatus # 200 \/ \A q \in DOMAIN r.letters : r.letters[q] \in AsSet(r.allowed_letters[q])
       THEN {} ELSE {"new_errors_supported_on_the_models_paulis"})
 
+\* the same request answered by a backend whose process had PANQEC_ROOT_DIR
+\* preset before the library was imported: same answer as in a clean process
+FailedEnvironment(r) ==
+     (IF r.status = 200 THEN {} ELSE {"code_data_request_succeeds_whatever_the_environment"})
+\cup (IF r.status # 200 \/ r.clean = r.preset THEN {} ELSE {"pictures_are_those_of_the_package_served"})
+
 Failed(r) == CASE r.kind = "codedata" -> FailedCodeData(r)
                [] r.kind = "names" -> FailedNames(r)
                [] r.kind = "decode" -> FailedDecode(r)
+               [] r.kind = "environment" -> FailedEnvironment(r)
 
 Judged == i = 0 \/ Report(Recs[i].id, Failed(Recs[i]))
 Post == PrintT(<<"CHECKED", TLCGet("distinct") - 1>>)
